@@ -60,9 +60,6 @@ CutResults(g, c, v) == CutRuns(g, GAdj(g, v), GTerm(g), c, GInit(g, v), GInit(g,
 \* joint actions some listed state offers
 JalOf(g, L) == UNION {JAvail(g, s) : s \in L}
 
-FullT(g) == [s \in GSt(g) |-> [j \in GJA(g) |-> [t \in GSt(g) |-> OT(g, s, j, t)]]]
-FullR(g) == [s \in GSt(g) |-> [j \in GJA(g) |-> [t \in GSt(g) |-> [i \in GAg(g) |-> OR(g, s, j, t, i)]]]]
-FullA(g) == [s \in GSt(g) |-> [j \in GJA(g) |-> OA(g, s, j)]]
 
 \* what the code as it stands does differently (variant 1), as predicates on the instance:
 \* listed (state, joint action) pairs whose row is filled although the joint action is unavailable there
@@ -75,21 +72,31 @@ Lists(g, v) ==
 
 \* ------------------------------------------------------------------ (R) array steps
 \* L = listed states, JL = listed joint actions; entries outside the lists have no cell
-RowT(g, L, JL, s) == [j \in JL |-> [t \in L |-> OT(g, s, j, t)]]
-RowR(g, L, JL, s) == [j \in JL |-> [t \in L |-> [i \in GAg(g) |-> OR(g, s, j, t, i)]]]
-RowA(g, JL, s)    == [j \in JL |-> OA(g, s, j)]
+\* (tables are forced with TLCEval: function constructors are lazy in TLC)
+RowT(g, L, JL, s) ==
+  LET av == JAvail(g, s) IN
+  TLCEval([j \in JL |-> [t \in L |-> IF j \in av THEN g.P[s][j][t] ELSE 0]])
+RowR(g, L, JL, s) ==
+  LET av == JAvail(g, s) IN
+  TLCEval([j \in JL |-> [t \in L |-> [i \in GAg(g) |->
+             IF j \in av /\ g.P[s][j][t] > 0 THEN g.R[s][j][t][i] ELSE 0]]])
+RowA(g, JL, s)    == LET av == JAvail(g, s) IN TLCEval([j \in JL |-> IF j \in av THEN 1 ELSE 0])
+Extend(f, s, v) == TLCEval([x \in DOMAIN f \cup {s} |-> IF x = s THEN v ELSE f[x]])
 
 Derived(g, L, JL, T, Rw, vis) ==
   [sar    |-> IF Opaque(g) THEN <<>>
-              ELSE [s \in L |-> [j \in JL |-> [i \in GAg(g) |->
-                       SumSet([t \in L |-> T[s][j][t] * Rw[s][j][t][i]], L)]]],
-   p0     |-> [s \in L |-> g.p0[s]],
+              ELSE TLCEval([s \in L |-> [j \in JL |-> [i \in GAg(g) |->
+                       SumSet([t \in L |-> T[s][j][t] * Rw[s][j][t][i]], L)]]]),
+   p0     |-> TLCEval([s \in L |-> g.p0[s]]),
    nonterm |-> {s \in L : g.term[s] = 0},
    absv   |-> {s \in L : OAbs(g, 0, s)},
    reach  |-> vis \cap L,
    positions |-> Positions(g, L)]
 
-JointMatrix(g, L, JL) == [s \in L |-> [j \in JL |-> JointProb(g, s, j)]]
+FullT(g) == [s \in GSt(g) |-> RowT(g, GSt(g), GJA(g), s)]
+FullR(g) == [s \in GSt(g) |-> RowR(g, GSt(g), GJA(g), s)]
+FullA(g) == [s \in GSt(g) |-> RowA(g, GJA(g), s)]
+JointMatrix(g, L, JL) == TLCEval([s \in L |-> [j \in JL |-> JointProb(g, s, j)]])
 
 \* ------------------------------------------------------------------ machine
 VARIABLES iid, cut, variant, phase, frontier, visited, lst, jseen, jset, jal, T, Rw, Am, der, jpm
@@ -149,7 +156,6 @@ MkJal ==
   /\ phase' = "rows"
   /\ UNCHANGED <<iid, cut, variant, frontier, visited, lst, jseen, jset, T, Rw, Am, der, jpm>>
 
-Extend(f, s, v) == [x \in DOMAIN f \cup {s} |-> IF x = s THEN v ELSE f[x]]
 FillRow ==
   /\ phase = "rows" /\ DOMAIN T # LSet
   /\ LET s == lst[Cardinality(DOMAIN T) + 1] IN
@@ -237,12 +243,16 @@ JalOk ==
 \* (P6) the arrays hold the numbers the functions return; rows of unavailable joint actions are zero
 ArraysAgree ==
   Arrays =>
-     \A s \in DOMAIN T : \A j \in JLSet :
-        /\ Am[s][j] = OA(M, s, j)
-        /\ \A t \in LSet : /\ T[s][j][t] = OT(M, s, j, t)
-                           /\ \A i \in GAg(M) : Rw[s][j][t][i] = OR(M, s, j, t, i)
-        /\ j \notin JAvail(M, s) => \A t \in LSet : T[s][j][t] = 0 /\ \A i \in GAg(M) : Rw[s][j][t][i] = 0
-        /\ j \in JAvail(M, s) => \A t \in LSet : T[s][j][t] = M.P[s][j][t]
+     \A s \in DOMAIN T :
+        LET av == JAvail(M, s) IN
+        \A j \in JLSet :
+           /\ Am[s][j] = OA(M, s, j)
+           /\ IF j \in av
+              THEN \A t \in LSet : /\ T[s][j][t] = M.P[s][j][t]
+                                   /\ \A i \in GAg(M) : Rw[s][j][t][i] = (IF M.P[s][j][t] > 0 THEN M.R[s][j][t][i] ELSE 0)
+              ELSE \A t \in LSet : T[s][j][t] = 0 /\ \A i \in GAg(M) : Rw[s][j][t][i] = 0
+           /\ M.big = 0 => \A t \in LSet : /\ T[s][j][t] = OT(M, s, j, t)
+                                            /\ \A i \in GAg(M) : Rw[s][j][t][i] = OR(M, s, j, t, i)
 \* (P7) rows of listed non-terminal states are complete distributions (the list is closed)
 RowsNormalised ==
   (Arrays /\ ~Opaque(M)) =>
